@@ -550,6 +550,7 @@ func runC01(c *Ctx) {
 	ruleDataSource(c)
 	ruleLineLimitCounting(c) // the limiter below the reader counts octet by octet, independent of read boundaries
 	ruleBudgetNotEarly(c)
+	ruleStreamLayersReadOnly(c)
 }
 
 // ruleBudgetNotEarly (C01; the same two obligations are part of C06 R-limit-budget): with a size limit configured, a
